@@ -150,8 +150,8 @@ thread_local! {
 }
 
 /// From the serialised VM: the input stack (`expansions` length and characters the lexer has not
-/// delivered, current source first), the pending `\\global` flag, and the position of every open
-/// `\\openin` stream inside its current line.
+/// delivered, current source first), the pending `\\global` flag, and for every open `\\openin`
+/// stream `position/length` of its current line.
 fn at_rest_report(json: &str) -> Option<String> {
     let part = |key: &str| -> Option<serde_json::Value> {
         let i = json.find(&format!("\"{key}\": "))? + key.len() + 4;
@@ -176,7 +176,9 @@ fn at_rest_report(json: &str) -> Option<String> {
     let mut pos = vec![];
     for f in input["files"].as_array()? {
         if !f.is_null() {
-            pos.push(f["raw_lexer"]["pos"].as_u64().unwrap_or(u64::MAX).to_string());
+            // byte position inside the current line / byte length of the current line
+            let r = &f["raw_lexer"];
+            pos.push(format!("{}/{}", r["pos"].as_u64().unwrap_or(u64::MAX), r["current_line"].as_str().map(|x| x.len()).unwrap_or(0)));
         }
     }
     Some(format!("{}|{}|{}|{}", stack.len(), stack.join(" "), prefix["scope"].as_str().unwrap_or("?"), pos.join(",")))
@@ -1843,7 +1845,7 @@ impl C08 {
         // The state every checkpoint is taken in (`Props/C08.lean`: `run_returns_at_rest`,
         // `reachable_scope_local`): the run returned, so the model's `next_unexpanded` on the real
         // serialised input stack must say end of input; the pending \\global flag is Local; every
-        // open \\openin stream stands at the start of a line.
+        // open \\openin stream stands between two lines (position = length of its current line).
         for (f, b) in &bs {
             if let (Fmt::Json, Some(rep)) = (f, &b.at_rest) {
                 let parts: Vec<&str> = rep.split('|').collect();
@@ -1858,8 +1860,15 @@ impl C08 {
                     }
                     if !parts[3].is_empty() {
                         o.tag("at-rest-open-streams");
-                        if parts[3].split(',').any(|p| p != "0") {
-                            o.fail(Kind::ImplVsModel, "at-rest", "an open \\openin stream is not at the start of a line at a checkpoint", parts[3]);
+                        // `\\read` always consumes whole lines (it drains the line after an unmatched
+                        // brace): between two reads a stream has read nothing of a line or all of it
+                        // (since C19-d the lexer reports an end of line without starting the next one)
+                        let between_lines = |p: &str| p.split_once('/').map(|(a, b)| a == b).unwrap_or(false);
+                        if !parts[3].split(',').all(between_lines) {
+                            o.fail(Kind::ImplVsModel, "at-rest", "an open \\openin stream is inside a line at a checkpoint", parts[3]);
+                        }
+                        if parts[3].split(',').any(|p| !p.starts_with("0/")) {
+                            o.tag("at-rest-stream-at-end-of-consumed-line");
                         }
                     }
                 }
